@@ -280,7 +280,7 @@ func c34TwoHellos() *explore.Scenario {
 			e1 := x.Choose("ech1", len(shapes))
 			e2 := x.Choose("ech2", len(shapes))
 			withECH := x.Choose("srv.ech", 2) == 1
-			other := x.Choose("second", 4) // 0 faithful copy, 1 other random, 2 other suites, 3 share for an unrequested group
+			other := x.Choose("second", 7) // 0 faithful copy, 1 other random, 2 other suites, 3 share for an unrequested group, 4/5/6 ALPN list longer / appearing / shorter in the second hello
 			var base *wire.Hello
 			for _, h := range c34Corpus() {
 				if h.name == "custom:tls13-minimal" {
@@ -321,6 +321,15 @@ func c34TwoHellos() *explore.Scenario {
 				h2 = &c
 			case 3:
 				h2 = withExt(h2, 51, share(23, 65))
+			case 4:
+				h1 = withExt(h1, 16, alpnListBody("h2"))
+				h2 = withExt(h2, 16, alpnListBody("h2", "http/1.1", "spdy/3"))
+			case 5:
+				h1 = withExt(h1, 16, nil)
+				h2 = withExt(h2, 16, alpnListBody("h2"))
+			case 6:
+				h1 = withExt(h1, 16, alpnListBody("h2", "http/1.1"))
+				h2 = withExt(h2, 16, alpnListBody("h2"))
 			}
 			stream := append(recordOf(rebuildHello(h1, nil)), []byte{20, 3, 3, 0, 1, 1}...)
 			rec2 := recordOf(rebuildHello(h2, nil))
@@ -726,4 +735,13 @@ func c34PSKShapes() *explore.Scenario {
 			return
 		},
 	}
+}
+
+func alpnListBody(protos ...string) []byte {
+	var l []byte
+	for _, p := range protos {
+		l = append(l, byte(len(p)))
+		l = append(l, p...)
+	}
+	return append([]byte{byte(len(l) >> 8), byte(len(l))}, l...)
 }
